@@ -13,3 +13,6 @@ open GoSQLXModel
 #print axioms ExprParse.prog
 #print axioms ExprParse.pExpr_progress
 #print axioms Props.C01.expression_ladder_moves_forward
+#print axioms ExprParse.tot
+#print axioms ExprParse.pExpr_returns
+#print axioms Props.C01.expression_ladder_returns
